@@ -410,6 +410,8 @@ class TypeGen:
             cd["frozen"] = chance(d, 0.2)
             if cfg["class_aliaser"] and chance(d, 0.12):
                 cd["aliaser"] = pick(d, ["upper", "pfx"])
+            if cfg.get("methods") and not for_flatten and chance(d, 0.35):
+                cd["methods"] = [m for m in (self.method(cd, fields, idx) for _ in range(d(st.integers(1, 2)))) if m]
             if cfg["dep_req"] and chance(d, 0.25):
                 cands = [f["n"] for f in fields if f.get("agg") is None and f.get("kind", "normal") == "normal"
                          and f.get("default") is not None and not f.get("required") and not (f.get("skip") or {}).get("de")]
@@ -420,6 +422,45 @@ class TypeGen:
         self.prog["classes"][idx] = cd
         self.prog.setdefault("order", []).append(idx)
         return idx
+
+    def method(self, cd: dict, fields: list, idx: int = -1) -> Optional[dict]:
+        """A serialized method / property: returns one of the object's fields, or a constant of a small type
+        (possibly Undefined where the return type allows it)."""
+        d = self.draw
+        m: Dict[str, Any] = {"n": f"m{self.uid()}", "alias": self.alias_name() if chance(d, 0.4) else None, "prop": chance(d, 0.3)}
+        cands = [f for f in fields if f.get("agg") is None and f.get("kind", "normal") == "normal" and not f.get("none_as_undefined")]
+        if cands and chance(d, 0.4):
+            f = pick(d, cands)
+            m.update(kind="field", field=f["n"], ret=f["t"])
+            return m
+        if idx >= 0 and self.cfg["recursion"] and chance(d, 0.12):
+            # the class refers to itself through the return type of the method only
+            form = pick(d, ["opt", "list"])
+            ref = {"k": "cls", "i": idx}
+            m.update(kind="const", ret={"k": "opt", "of": ref} if form == "opt" else {"k": "list", "sp": "List", "of": ref},
+                     value=["none"] if form == "opt" else ["list", []])
+            return m
+        form = pick(d, ["leaf", "leaf", "list", "opt"])
+        inner = self.leaf()
+        ret = inner if form == "leaf" else {"k": "list", "sp": "List", "of": inner} if form == "list" else {"k": "opt", "of": inner}
+        ret = self.nolit(ret)
+        if self.refs_stack(ret):
+            return None
+        value = value_for(d, self.prog, ret, fuel=1, stack=self.stack)
+        try:
+            if not M.conforms(self.prog, ret, value):
+                return None
+        except Exception:
+            return None
+        if chance(d, 0.25) and ret["k"] != "any":
+            alts = M.union_alts(ret) if ret["k"] in ("opt", "union") else [ret]
+            ret = self.nolit({"k": "union", "alts": alts + [{"k": "undefined"}]})
+            if chance(d, 0.5):
+                value = ["undef"]
+            elif not M.conforms(self.prog, ret, value):
+                return None
+        m.update(kind="const", ret=ret, value=value)
+        return m
 
     def field(self, cd: dict, depth: int, flavor: str) -> dict:
         d = self.draw
